@@ -1,0 +1,14 @@
+//go:build verif
+
+package stgutg
+
+import (
+	"fmt"
+	"net"
+)
+
+// verifReportSession prints what EstablishPDU is about to return, so that a test harness can compare the
+// reported UE address, uplink TEID and UPF address with what the network assigned.
+func verifReportSession(supi string, clientip net.IP, teid uint32, upfip net.IP) {
+	fmt.Printf("VERIF-SESSION %s %s %d %s\n", supi, clientip, teid, upfip)
+}
